@@ -171,8 +171,15 @@ class SimNetworkStack(BaseNetworkStack):
         self.link = link
         self.puts: List[Any] = []
         self.sockets: List[Any] = []
+        # socket id -> purpose id; identity as in SquidASM unless a property's run installs another bijection
+        self.pfun: Any = lambda s: s
+        self.refuse: Any = None      # injected fault: predicate(request) -> True = the stack refuses the request
+        self.refused = 0
 
     def put(self, request) -> None:
+        if self.refuse is not None and self.refuse(request):
+            self.refused += 1
+            raise RuntimeError("simulated fault: the network stack refuses the request")
         self.puts.append(request)
         if self.link is not None:
             self.link.on_put(self.node_id, request)
@@ -184,8 +191,7 @@ class SimNetworkStack(BaseNetworkStack):
         return None
 
     def get_purpose_id(self, remote_node_id: int, epr_socket_id: int) -> int:
-        # as in SquidASM: the purpose id is the epr socket id
-        return epr_socket_id
+        return self.pfun(epr_socket_id)
 
 
 def flavour_of(name: str):
